@@ -461,3 +461,82 @@ def run_reuse_case(ts, op1, op2):
     fresh = build(BO[op2], [fresh_shared, F[3]])
     fresh_atom = build(BO[op2], [F[0], F[3]])
     return second == fresh and second_atom == fresh_atom and str(shared) == before
+
+
+# ---------------------------------------------------------------- an observation whose WHOLE comparison expression is one parenthesised group
+GROUP_SHAPES = ["[({a} {op} {b})]", "[(({a} {op} {b}))]", "[({a})]", "[({a} {op} {b})] WITHIN 5 SECONDS", "[({a})] AND [{b}]", "[({a} {op} {b})] OR ([{b}] FOLLOWEDBY [({a})])",
+                "[({a} {op} {b})] REPEATS 2 TIMES", "([({a})]) WITHIN 5 SECONDS"]
+NGS = len(GROUP_SHAPES)
+
+
+def whole_group(shape: int, oi: int, a1: int, a2: int, n1: bool, prog: bool) -> bool:
+    """
+    pre: 0 <= shape < NGS and 0 <= oi < 2 and 0 <= a1 < NA_BOOL and 0 <= a2 < 4
+    post: _
+    """
+    shape, oi, a1, a2, n1, prog = pick(shape, NGS), pick(oi, 2), pick(a1, NA_BOOL), pick(a2, 4), pickb(n1), pickb(prog)
+    with Native():
+        ok = run_group_case(shape, oi, a1, a2, n1, prog)
+    V.reached()
+    return ok
+
+
+def run_group_case(shape, oi, a1, a2, n1, prog):
+    ta, A = atom(a1, 0, n1)
+    tb, B = atom((a2 * 7) % NATOM, 1, False)
+    op = B_OPS[oi]
+    G, PA = ("paren", flat(op, [A, B])), ("paren", A)
+    want = [("obs", G), ("obs", ("paren", G)), ("obs", PA), ("qual", ("obs", G), "WITHIN 5 SECONDS"), oflat("AND", [("obs", PA), ("obs", B)]),
+            oflat("OR", [("obs", G), ("paren", oflat("FOLLOWEDBY", [("obs", B), ("obs", PA)]))]), ("qual", ("obs", G), "REPEATS 2 TIMES"),
+            ("qual", ("paren", ("obs", PA)), "WITHIN 5 SECONDS")][shape]
+    text = GROUP_SHAPES[shape].format(a=ta, b=tb, op=op)
+    if prog:
+        # the same model assembled from the classes: what it prints must parse back to the same structure
+        m = create_pattern_object(text, version="2.1")
+
+        def rebuild(x):
+            if isinstance(x, PT.ParentheticalExpression):
+                return PT.ParentheticalExpression(rebuild(x.expression))
+            if isinstance(x, PT.QualifiedObservationExpression):
+                return PT.QualifiedObservationExpression(rebuild(x.observation_expression), x.qualifier)
+            if isinstance(x, PT._CompoundObservationExpression):
+                return type(x)([rebuild(o) for o in x.operands])
+            if isinstance(x, PT.ObservationExpression):
+                return PT.ObservationExpression(rebuild(x.operand))
+            if isinstance(x, PT._BooleanExpression):
+                return type(x)([rebuild(o) for o in x.operands])
+            return x
+        text = str(rebuild(m))
+    return check_text(text, want)
+
+
+# ---------------------------------------------------------------- caller-supplied node classes (module_suffix / module_name of create_pattern_object)
+import types as _types  # noqa: E402
+
+OVR = _types.ModuleType("verif_pattern_overrides")
+for _n in ("StringConstant", "BinaryConstant", "HexConstant", "EqualityComparisonExpression", "ObjectPath", "ListConstant", "BasicObjectPathComponent",
+           "ListObjectPathComponent", "IntegerConstant", "ObservationExpression"):
+    setattr(OVR, _n + "ForOvr", type(_n + "ForOvr", (getattr(PT, _n),), {}))       # the visitor looks for <class name>For<suffix>
+import sys as _sys  # noqa: E402
+_sys.modules["verif_pattern_overrides"] = OVR
+OVR_TEXTS = ["[a:b = 'it\\'s']", "[a:b = 'C:\\\\Windows']", "[a:b = b'YWJj']", "[a:b = h'00ff']", "[a:'k-1'.c = 'x']", "[a:b[1].'c d' = 'q\\'\\\\']", "[a:b IN ('x\\'', 'y')]",
+             "[a:b = 5 AND a:c = 'plain']"]
+NOVR = len(OVR_TEXTS)
+
+
+def override_classes(ti: int) -> bool:
+    """
+    pre: 0 <= ti < NOVR
+    post: _
+    """
+    ti = pick(ti, NOVR)
+    with Native():
+        text = OVR_TEXTS[ti]
+        plain = create_pattern_object(text, version="2.1")
+        o = create_pattern_object(text, module_suffix="Ovr", module_name="verif_pattern_overrides", version="2.1")
+        # the caller's classes are used where they exist, and the model prints exactly what the default model prints (a fixed point of parse-then-print)
+        uses = isinstance(o, OVR.ObservationExpressionForOvr)
+        ok = uses and str(o) == str(plain) and str(create_pattern_object(str(o), module_suffix="Ovr", module_name="verif_pattern_overrides", version="2.1")) == str(o) \
+            and tree_of(o) == tree_of(plain)
+    V.reached()
+    return ok
